@@ -172,10 +172,18 @@ class ProxyIO:
         raise NotImplementedError()
 
     def kill(self) -> None:
-        self._controll(RIO_KILL)
+        try:
+            self._controll(RIO_KILL)
+        except (OSError, EOFError):
+            # the via gateway is gone: nobody left to do it (like
+            # Popen2IOMaster.kill on a vanished process)
+            pass
 
     def wait(self) -> int | None:
-        response = self._controll(RIO_WAIT)
+        try:
+            response = self._controll(RIO_WAIT)
+        except (OSError, EOFError):
+            return None
         assert response is None or isinstance(response, int)
         return response
 
